@@ -47,8 +47,13 @@ EVIL = ["evil.example", "evil.example:6680", "localhost.evil.example", "evilloca
 LATIN = "\xc0\xd7\xde\xdf\xe0\xff\xaa\xb5\xa0\x85"
 
 
+def _up(c):
+    u = c.upper()
+    return u if len(u) == 1 and ord(u) < 256 else c
+
+
 def mixed_case(rng, s):
-    return "".join(c.upper() if rng.random() < 0.4 else c.lower() if rng.random() < 0.3 else c for c in s)
+    return "".join(_up(c) if rng.random() < 0.4 else c.lower() if rng.random() < 0.3 else c for c in s)
 
 
 def allow_items(cfg):
@@ -280,7 +285,8 @@ def permitted(origin, host, allow):
         n = urllib.parse.urlsplit(origin).netloc
     except ValueError:
         return False
-    return n == "" or n.lower() == host or n.lower() in allow
+    # the reading most favourable to the implementation: both sides compared case-insensitively
+    return n == "" or (host is not None and n.lower() == host.lower()) or n.lower() in {a.lower() for a in allow}
 
 
 def origin_class(o):
@@ -318,7 +324,7 @@ def py_monitors(case, obs):
     allow = SERVERS.get(case["csrf"], case["allow_cfg"]).config["http"]["allowed_origins"]
     csrf, kind = case["csrf"], case["kind"]
     if kind == "post" and csrf and core:
-        if (ctype or "").split(";")[0].strip() != "application/json":
+        if (ctype or "").split(";")[0].strip().lower() != "application/json":
             bad.append(("T1_post_gate", f"executed with Content-Type {ctype!r}"))
     if kind == "options" and csrf:
         if origin is None:
@@ -543,22 +549,34 @@ def http_stage(chk, cases):
         chk.sample({"kind": case["kind"], "csrf": case["csrf"], "allow": case["allow_cfg"], "seen": obs["seen"],
                     "status": obs["status"], "acao": obs["acao"], "core": obs["core"]})
     terms = [f"({model_request(c, o)}, {observed_response(o)})" for c, o in rows]
-    ok_def = ("Definition cases_ty : Type := (request * response)%type.\n"
-              "Definition ok (c : cases_ty) : bool := let '(r, p) := c in resp_eqb (handle r) p.\n")
-    ok, bad = eval_shards(chk, "http", terms, ok_def)
-    for i in bad[:20]:
-        c, o = rows[i]
-        chk.corr_failure("http", c, {"observed": o})
+    # one Coq file per shard: Eval #0 = model vs observed response, Eval #1..5 = the Gallina
+    # monitors (the predicates of the theorems) on the observed response
+    per = 500
+    shards = [terms[i: i + per] for i in range(0, len(terms), per)]
+    body = ("Definition cases_ty : Type := (request * response)%type.\n"
+            "Definition ok (c : cases_ty) : bool := let '(r, p) := c in resp_eqb (handle r) p.\n"
+            "Definition mon (k : nat) (c : cases_ty) : bool := let '(r, p) := c in nth k (all_monitors r p) false.\n")
+    texts = [vlib.COQ_HEADER + COQ_IMPORTS + body + "Definition cases : list cases_ty :=\n " + g_list(sh) + ".\n"
+             + "Eval vm_compute in mismatches ok cases.\n"
+             + "".join(f"Eval vm_compute in mismatches (mon {k}%nat) cases.\n" for k in range(len(MON_NAMES)))
+             for sh in shards]
+    ok = True
+    for si, (rc, out) in enumerate(vlib.coq_eval_many(AREA, texts)):
+        lists = vlib.parse_all_lists(out)
+        if rc != 0 or len(lists) != 1 + len(MON_NAMES):
+            ok = False
+            chk.corr_failure("http", {"shard": si, "error": "coq evaluation failed"}, out[-1500:])
+            continue
+        for i in lists[0][:20]:
+            ok = False
+            c, o = rows[si * per + i]
+            chk.corr_failure("http", c, {"observed": o})
+        for k, mon in enumerate(MON_NAMES):
+            for i in lists[1 + k][:20]:
+                c, o = rows[si * per + i]
+                chk.monitor_failure(mon, mon_key(mon, c, o), f"Gallina predicate {mon} false on the observed response",
+                                    {"case": c, "observed": o})
     chk.obligation("corr:http", "correspondence", ok and not any(cf["name"] == "http" for cf in chk.corr_failures))
-    # the Gallina monitors (the predicates of the theorems) on the observed responses
-    for k, mon in enumerate(MON_NAMES):
-        ok_def = ("Definition cases_ty : Type := (request * response)%type.\n"
-                  f"Definition ok (c : cases_ty) : bool := let '(r, p) := c in nth {k} (all_monitors r p) false.\n")
-        mok, mbad = eval_shards(chk, f"monitor-eval-{mon}", terms, ok_def)
-        for i in mbad[:20]:
-            c, o = rows[i]
-            chk.monitor_failure(mon, mon_key(mon, c, o), f"Gallina predicate {mon} false on the observed response",
-                                {"case": c, "observed": o})
     return rows
 
 
@@ -614,8 +632,11 @@ def run(chk):
         "the JSON-RPC wrapper itself does not raise (recording core); python is not run with -O (the `assert origin` in options is live)",
         "the WebSocket handshake is otherwise valid (Upgrade/Connection/Key/Version present)",
     ]
-    chk.proof_stage(PROP_FILES, thorough_coqchk=(chk.tier == "thorough"))
+    built = chk.proof_stage(PROP_FILES, thorough_coqchk=False)
+    if built and chk.tier == "thorough":
+        L.coqchk_stage(chk, AREA, PROP_FILES)
     vlib.setup_impl()
+    L.quiet_logs()
     chk.search_hook = search
     netloc_stage(chk)
     check_origin_stage(chk)
